@@ -216,6 +216,15 @@ func c49(c *Ctx) {
 		}
 		c.Expect(ne == 1 && nw == 1, nil, fp, "exact-then-wildcard", "expected an exact-port return and a wildcard-port return")
 	})
+	c.Ob("error-discipline", "R2", "lookup and the filter-chain validation never turn a helper's error into a success", 3, func() {
+		n := c.ErrorsPropagate(lk, "lookup", nil)
+		for _, fn := range []string{"addFilterChainsForSourcePorts", "addFilterChainsForSourcePrefixes", "addFilterChainsForSourceType", "addFilterChainsForDestPrefixes", "addFilterChainsForServerNames", "addFilterChainsForTransportProtocols", "addFilterChainsForApplicationProtocols", "buildFilterChainMap"} {
+			if f := c.P.LookupFunc(xdsrsrc, fn); f != nil && f.Blocks != nil {
+				n += c.ErrorsPropagate(f, fn, nil)
+			}
+		}
+		c.Expect(n >= 3, nil, nil, "error-sites", "fewer tested helper errors than on the reviewed tree")
+	})
 	c.Ob("tie-rejected", "R2", "addFilterChainsForSourcePorts: a filter chain is stored for a source port only after the slot for that same port was found empty", 2, func() {
 		f := c.fn(xdsrsrc, "addFilterChainsForSourcePorts")
 		n := 0
